@@ -60,7 +60,7 @@ def _solve(q0, z, prof, domain, levels, **kw):
     prof = tuple(np.ascontiguousarray(a, dtype=float) for a in prof)
     try:
         _, conc, flx = steady_state_transport_solver(
-            (np.array(q0) if np.asarray(q0).dtype.kind in "iu" else np.array(q0, dtype=float)),   # integer count fields stay integer-typed
+            (np.array(q0) if np.asarray(q0).dtype.kind in "iub" else np.array(q0, dtype=float)),   # integer count fields and masks keep their type
             np.ascontiguousarray(z, dtype=float), prof, domain, lv,
             precision="double", **kw)
     except CacheChangesResult:
@@ -245,6 +245,33 @@ def background(nx, ny, X, Y, halo, profile, levels, modes, meas_pt, footprint, a
     return Verdict(True, detail, nontrivial=bg != 0.0)
 
 
+@S.kind("typed-source")
+def typed_source(nx, ny, X, Y, halo, profile, levels, modes, meas_pt, analytic, dtype, bg, seed):
+    """'Any surface-flux field': an integer-typed or boolean field (counts, a land-use mask) is the same field as its float
+    copy -- linearity in the field leaves no room for a dtype to matter (dispersion mode)."""
+    z, prof = make_profiles(profile)
+    rng = np.random.default_rng(seed)
+    if dtype == "bool":
+        q = rng.random((ny, nx)) < 0.3
+        q[0, 0] = True
+    else:
+        q = rng.integers(0, 7, size=(ny, nx)).astype(dtype)
+        q[0, 0] = 3
+    kw = dict(modes=tuple(modes), meas_pt=tuple(meas_pt), footprint=False, analytic=analytic, halo=halo)
+    try:
+        p1, f1 = _solve(q, z, prof, (X, Y), levels, srf_bg_conc=bg, **kw)
+        p2, f2 = _solve(q.astype(float), z, prof, (X, Y), levels, srf_bg_conc=float(bg), **kw)
+    except SolverCrash as e:
+        return _crash(e, analytic, levels)
+    tag = _tag(False, analytic)
+    ep = float(np.max(np.abs(p1 - p2))) / (float(np.max(np.abs(p2))) + 1e-300)
+    ef = float(np.max(np.abs(f1 - f2))) / (float(np.max(np.abs(f2))) + 1e-300)
+    detail = "%s source of dtype %s against its float copy: conc %.2e flux %.2e" % (tag, dtype, ep, ef)
+    if not (ep <= TOL and ef <= TOL):
+        return Verdict(False, detail, key="source-dtype-matters-" + tag)
+    return Verdict(True, detail, nontrivial=float(np.max(np.abs(f2))) > 0)
+
+
 @S.kind("footprint_values")
 def footprint_values(nx, ny, X, Y, halo, profile, levels, modes, meas_pt, analytic, src1, src2,
                      bg, seed):
@@ -350,7 +377,9 @@ def generate(tier, rng):
                     c += 1
                     p = CONSTANT if an else PROFILES[(c + rep) % len(PROFILES)]
                     top = _top(p)
-                    lv = [0, 2, top // 2, top] if multi else (top // 2 if c % 2 else top)
+                    # "at every level": the surface level and the top node included, in any order of the request, repeats allowed
+                    lv = [[0, 2, top // 2, top], [top, top // 2, 2, 0], [top // 2, 0, top, 2], [2, 0, 2, top]][c % 4] if multi \
+                        else ((top // 2 if c % 2 else top) if c % 5 else 0)
                     mp = [[0.0, 0.0], [3 * dx, 2 * dy], [2.3 * dx, 1.6 * dy]][c % 3]
                     base = dict(nx=nx, ny=ny, X=X, Y=Y, halo=halo, profile=p, levels=lv,
                                 modes=_modes(nx + 2 * px, ny + 2 * py, c + rep), meas_pt=mp,
@@ -374,6 +403,9 @@ def generate(tier, rng):
                         base, footprint=False, src1=SRC[(c + 1) % len(SRC)], src2=ZERO_MEAN[(c + 1) % 3],
                         a=(1.0, _coef(rng))[c % 2], b=(1.0, _coef(rng))[c % 2], c1=0.0,
                         c2=round(rng.uniform(0.5, 5), 3), seed=rng.randrange(10 ** 6))
+                    if c % 2 == 0:
+                        yield "typed-source", dict(base, dtype=("int64", "bool", "uint8", "int32")[(c // 2) % 4], bg=(0.0, 400)[(c // 4) % 2],
+                                                   seed=rng.randrange(10 ** 6))
                     # integer-typed background value and source field (YAML `srf_bg_conc: 400`, a count map)
                     yield "background", dict(
                         base, footprint=bool(c % 2), src=("counts", SRC[(c) % len(SRC)])[c % 2], bg=(400, -3, 1)[c % 3],
